@@ -18,6 +18,11 @@ Inductive cfilter :=
 | FTextEqVar (v w : bytes)         (* m[v].Text == m[w].Text *)
 | FTextNeVar (v w : bytes)
 | FTextMatches (v pat : bytes)     (* m[v].Text.Matches(`pat`) *)
+| FLineEq (v w : bytes)            (* m[v].Line == m[w].Line *)
+| FLineNe (v w : bytes)
+| FLineLt (v w : bytes)            (* m[v].Line < m[w].Line *)
+| FLineGtC (v : bytes) (n : Z)     (* m[v].Line > n *)
+| FNodeIs (v tag : bytes)          (* m[v].Node.Is(`tag`) *)
 | FNot (f : cfilter)
 | FAnd (f g : cfilter)
 | FOr (f g : cfilter).
@@ -38,6 +43,11 @@ Definition var_node (v : bytes) (whole : mnode) (caps : list (bytes * mnode)) : 
 (* filterParams.nodeText(subNode(v)): an unbound name is a nil node and has the empty text *)
 Definition var_text (v : bytes) (whole : mnode) (caps : list (bytes * mnode)) : bytes :=
   match var_node v whole caps with Some nd => n_text nd | None => [] end.
+
+(* token.File's line table: the line of a file offset is 1 + the number of newlines in front of it *)
+Fixpoint count_nl (s : bytes) : Z := match s with [] => 0 | c :: t => (if c =? 10 then 1 else 0) + count_nl t end.
+Definition line_of (src : bytes) (pos : Z) : Z := 1 + count_nl (firstn (Z.to_nat pos) src).
+Definition tag_Node : bytes := [78; 111; 100; 101].
 
 (* the match data of runCommentRules: m.match.Capture and m.match.Node *)
 Record mdata := { md_caps : list (bytes * mnode); md_node : option mnode }.
@@ -97,6 +107,12 @@ Fixpoint group_caps_from (i : nat) (names : list bytes) (res : list Z) : outcome
 
 Definition group_caps (names : list bytes) (res : list Z) : outcome (list (bytes * mnode)) := group_caps_from 0 names res.
 
+(* ctx.Fset.Position(subNode(v).Pos()).Line; an unbound name has no node and hence no line *)
+Definition var_line (v : bytes) (whole : mnode) (caps : list (bytes * mnode)) : option Z :=
+  match var_node v whole caps with Some nd => Some (line_of src (n_pos nd)) | None => None end.
+Definition line_cmp (cmp : Z -> Z -> bool) (a b : option Z) : bool :=
+  match a, b with Some x, Some y => cmp x y | _, _ => false end.           (* "no node, no line": the filter fails *)
+
 Fixpoint eval_filter (f : cfilter) (whole : mnode) (caps : list (bytes * mnode)) : outcome bool :=
   match f with
   | FTrue => Ok true
@@ -105,6 +121,12 @@ Fixpoint eval_filter (f : cfilter) (whole : mnode) (caps : list (bytes * mnode))
   | FTextEqVar v w => Ok (bytes_eqb (var_text v whole caps) (var_text w whole caps))
   | FTextNeVar v w => Ok (negb (bytes_eqb (var_text v whole caps) (var_text w whole caps)))
   | FTextMatches v pat => match re_match pat (var_text v whole caps) with Some b => Ok b | None => Panic PExplicit end
+  | FLineEq v w => Ok (line_cmp Z.eqb (var_line v whole caps) (var_line w whole caps))
+  | FLineNe v w => Ok (line_cmp (fun x y => negb (x =? y)) (var_line v whole caps) (var_line w whole caps))
+  | FLineLt v w => Ok (line_cmp Z.ltb (var_line v whole caps) (var_line w whole caps))
+  | FLineGtC v n => Ok (line_cmp Z.gtb (var_line v whole caps) (Some n))
+  (* a piece of a comment is an *ast.Comment: it is a Node, not an Expr / Stmt, and has no node tag of its own *)
+  | FNodeIs v tag => Ok (bytes_eqb tag tag_Node)
   | FNot g => bind (eval_filter g whole caps) (fun b => Ok (negb b))
   | FAnd g h => bind (eval_filter g whole caps) (fun b => if b : bool then eval_filter h whole caps else Ok false)
   | FOr g h => bind (eval_filter g whole caps) (fun b => if b : bool then Ok true else eval_filter h whole caps)
@@ -217,7 +239,7 @@ Qed.
 
 (* ------------------------------------------------------------------ spans and texts, when comment.Text IS the comment's source *)
 Hypothesis in_range_spec : forall from to s,
-  in_range from to s = Ok ((0 <=? from) && (from <? len s) && ((0 <=? to) && (to <=? len s))).
+  in_range from to s = Ok ((0 <=? from) && (from <? len s) && ((from <=? to) && (to <=? len s))).
 Hypothesis off_ok : 0 <= off.
 Hypothesis text_is_source : sub src off (off + len text) = text.     (* no byte was stripped by the scanner *)
 Hypothesis text_in_file : off + len text <= len src.
@@ -252,10 +274,10 @@ Proof.
   - (* empty node at the very end of the comment: may or may not be in range; both branches give the empty text *)
     assert (e = b) by lia. subst e.
     assert (Hs : sub text b b = []) by (unfold sub; rewrite Z.sub_diag; reflexivity).
-    rewrite Hs. destruct ((0 <=? off + b) && (off + b <? len src) && ((0 <=? off + b) && (off + b <=? len src))).
+    rewrite Hs. destruct ((0 <=? off + b) && (off + b <? len src) && ((off + b <=? off + b) && (off + b <=? len src))).
     + rewrite slice_ok by lia. cbn [bind]. rewrite Z.sub_diag. reflexivity.
     + reflexivity.
-  - replace ((0 <=? off + b) && (off + b <? len src) && ((0 <=? off + e) && (off + e <=? len src))) with true by lia.
+  - replace ((0 <=? off + b) && (off + b <? len src) && ((off + b <=? off + e) && (off + e <=? len src))) with true by lia.
     rewrite slice_ok by lia. cbn [bind]. fold (sub src (off + b) (off + e)).
     rewrite src_sub by lia. reflexivity.
 Qed.
@@ -365,6 +387,14 @@ Theorem filter_reads_group_text whole caps name nd :
   name <> dollar2 -> captured_by_name name caps = Some nd -> var_text name whole caps = n_text nd.
 Proof.
   intros Hd Hc. unfold var_text, var_node. rewrite bytes_eqb_neq by exact Hd. now rewrite Hc.
+Qed.
+
+(* ... and the line it reads is the line of the file on which that node begins (for a group that took part in the match:
+   the line of offset-of-comment + submatch begin, by groups_interpolate) *)
+Theorem filter_reads_group_line whole caps name nd :
+  name <> dollar2 -> captured_by_name name caps = Some nd -> var_line name whole caps = Some (line_of src (n_pos nd)).
+Proof.
+  intros Hd Hc. unfold var_line, var_node. rewrite bytes_eqb_neq by exact Hd. now rewrite Hc.
 Qed.
 
 (* capture_fast_path_safe: a pattern without capture groups has SubexpNames() = [""]; taking the FindStringIndex
